@@ -127,7 +127,7 @@ def run(ctx):
             for i in range(n_cases):
                 yield glencoe_model(g, g.rng.choice(sizes))
             yield from gen.nest_models(gen.LOGICAL, chunk=4)
-            yield from gen.case_twin_models()
+            yield from gen.case_twin_models(same_name=False)
         for m in models():
             req = sx.dumps(tag("glencoe_write", spec.fm_sx(m)))
             mrep = ctx.model.call_raw(req)
@@ -201,9 +201,17 @@ def run(ctx):
             r.record(label, rreq, iread, mread)
             if "fm" in holder:
                 for fail in fmt.graph_wf(holder["fm"]):
-                    if fail[0] == "relation:empty" and label == "malformed":
-                        continue
                     r.oracle_fail(label, rreq, "graph:" + fail[0], fail[1])
+                # the tree of the document, feature by feature: none is lost, none is invented
+                want, stack = [], [doc["tree"]]
+                while stack:
+                    node = stack.pop()
+                    want.append(doc["features"][node["id"]]["name"])
+                    stack.extend(node.get("children", []))
+                got = [f.name for f in holder["fm"].get_features()]
+                if sorted(got) != sorted(want):
+                    r.oracle_fail(label, rreq, "graph:features-of-the-document",
+                                  f"document tree {sorted(want)[:8]}, model {sorted(got)[:8]}")
     finally:
         sc.close()
 
@@ -280,8 +288,27 @@ def documents(ctx, with_model=False):
         if "constraints" in d and not d["constraints"] and rng.random() < 0.5:
             d.pop("constraints")          # a missing section means no constraints
         yield ("third-party", d, m) if with_model else ("third-party", d)
+        # a group most of whose members are mandatory: exactly one optional member left, or none at all
         d = copy.deepcopy(doc)
-        kind = rng.randrange(7)
+        groups = []
+        stack = [d["tree"]]
+        while stack:
+            node = stack.pop()
+            kids = node.get("children", [])
+            stack.extend(kids)
+            if d["features"][node["id"]]["type"] != "FEATURE" and kids:
+                groups.append(kids)
+        if groups:
+            kids = rng.choice(groups)
+            opt = [k for k in kids if d["features"][k["id"]]["optional"]]
+            keep = rng.sample(opt, min(len(opt), rng.choice([0, 1])))
+            for k in opt:
+                if k not in keep:
+                    d["features"][k["id"]]["optional"] = False
+            g.count("glencoe_group_flags", f"{len(keep)} optional of {len(kids)}")
+            yield ("group-flags", d, m) if with_model else ("group-flags", d)
+        d = copy.deepcopy(doc)
+        kind = rng.randrange(8)
         g.count("glencoe_malformed", kind)
         ids = list(d["features"])
         if kind == 0:
@@ -303,4 +330,6 @@ def documents(ctx, with_model=False):
                 d["features"][rng.choice(gen_ids)].pop("max")
         elif kind == 6:
             d["tree"].pop("id")
+        elif kind == 7:
+            d["features"][rng.choice(ids)]["type"] = rng.choice(["AND", "feature", "Xor", ""])
         yield ("malformed", d, m) if with_model else ("malformed", d)
